@@ -30,7 +30,7 @@ func main() {
 			"the offset left behind by a rejected (out of range) Seek is not specified by the property: the model adopts the implementation's value",
 			"the search de-duplicates on the shadow state: stale bytes left in the cache storage by earlier loads are not part of the state identity",
 		},
-		Variants:       []string{"c1e2", "c2e3", "c3e2", "c4e1"},
+		Variants:       []string{"c1e2", "c2e3", "c3e2", "c4e1", "sched"},
 		QuickBudget:    90 * time.Second,
 		ThoroughBudget: 15 * time.Minute,
 	}, body)
@@ -66,7 +66,15 @@ func seq(a, b int) []int {
 	return out
 }
 
+var schedSubs func(w *runner.W)
+
 func body(w *runner.W) {
+	if w.Variant == "sched" {
+		if schedSubs != nil {
+			schedSubs(w)
+		}
+		return
+	}
 	var ap *applier
 	getAp := func() *applier {
 		if ap == nil {
